@@ -342,6 +342,13 @@ pub fn run_batch(prop: &Prop, cfg: &BatchCfg) -> i32 {
     }
     let mut exit = 0;
     let mut n_viol = 0;
+    // "HARNESS." rules are reported by oracles that notice the simulator lost sight of the system
+    // (e.g. output no longer goes through the stdout seam): a harness error, never a verdict
+    if let Some((_, f)) = unknown.iter().find(|(_, f)| f.violation.rule.starts_with("HARNESS.")) {
+        eprintln!("harness error: {} (run {}): {}", f.violation.rule, f.run, f.violation.msg);
+        unknown.clear();
+        exit = 2;
+    }
     if !unknown.is_empty() {
         unknown.sort_by_key(|(p, f)| (f.run, p.clone()));
         // one report per distinct rule, lowest run index first
